@@ -110,3 +110,39 @@ Proof.
     rewrite E2 in LE. assert (0 <= P * P) by nra. nra.
 Qed.
 End TruncStab.
+
+(* both modes, only the LAPACK contracts and the root law assumed *)
+Section TruncStabFull.
+Variable svdo : nat -> mat R -> mat R * list R * mat R.
+Variable eigh : nat -> mat R -> list R * mat R.
+Variable argsort : nat -> list R -> list nat.
+Variable qr rq : nat -> mat R -> mat R * mat R.
+Variable ilog2 : nat -> R -> Z.
+Variable pow2frac : Z -> nat -> R.
+Hypothesis qr_spec : forall k A, qr_ok OR A (fst (qr k A)) (snd (qr k A)).
+Hypothesis rq_spec : forall k A, rq_ok OR A (fst (rq k A)) (snd (rq k A)).
+Hypothesis svd_spec : forall k A, svd_ok OR A (fst (fst (svdo k A))) (snd (fst (svdo k A))) (snd (svdo k A)).
+Hypothesis eigh_spec : forall k C, msym C -> eigh_ok C (fst (eigh k C)) (snd (eigh k C)).
+Hypothesis argsort_spec : forall k l, argsort_ok l (argsort k l).
+Hypothesis Hroot : forall p d, (1 <= d)%nat -> opow OR (pow2frac p d) d = powerRZ 2 p.
+
+Theorem truncate_error_stab (rcap : Z) (is_eigh : bool) (Y : list (core R)) (e : R) :
+  wfI (shape Y) Y -> (2 <= length Y)%nat -> 0 <= e ->
+  exists W, truncate OR svdo eigh argsort qr rq ilog2 pow2frac Y e rcap true true is_eigh = Ok W /\
+    length W = length Y /\ chain 1 W 1 /\ shape W = shape Y /\
+    (forall k, (1 <= k < length Y)%nat ->
+       (1 <= cr1 (nth k W dcore))%nat /\ (cr1 (nth k W dcore) <= cr1 (nth k Y dcore))%nat /\
+       (Z.of_nat (cr1 (nth k W dcore)) <= Z.max 1 rcap)%Z) /\
+    ((forall k, (1 <= k < length Y)%nat -> (Z.of_nat (cr1 (nth k W dcore)) < rcap)%Z) ->
+     dist2 OR Y W <= e * e * tnorm2 OR Y).
+Proof.
+  apply (truncate_error_stab_gen svdo eigh argsort qr rq ilog2 pow2frac qr_spec rq_spec rcap is_eigh); [|exact Hroot].
+  intros e' He'. destruct is_eigh.
+  - exact (svd_contract eigh argsort eigh_spec argsort_spec rcap e' He').
+  - exact (skeleton_contract svdo svd_spec rcap e' He').
+Qed.
+End TruncStabFull.
+
+(* the root law is satisfiable: 2^(p/d) as a real power *)
+Example root_law_ex : forall p d, (1 <= d)%nat -> opow OR (rootR p d) d = powerRZ 2 p.
+Proof. intros p d Hd. apply rootR_spec. lia. Qed.
